@@ -134,6 +134,12 @@ class Env:
             return getattr(tgt, m)(*[self.term(t) for t in c["row"]])
         if m == "set":
             return tgt.set(c["col"], self.term(c["val"]))
+        if m == "setf":
+            return tgt.set(self.term(c["f"]), self.term(c["val"]))
+        if m == "columnsf":
+            return tgt.columns(self.term(c["f"]))
+        if m == "returning":
+            return tgt.returning(*[self.term(t) for t in c["terms"]])
         if m == "for_update":
             return tgt.for_update()
         if m in ("force_index", "use_index"):
